@@ -34,6 +34,7 @@ Step(q) ==
     [] q.k = "elemplan" -> [patterns |-> ElemPatterns,
                             args |-> [m \in {mm \in SpreadingModels : ~QuadBased(mm)} |-> {[par |-> a, xs |-> ElemArgs(m, a)] : a \in ParamsG(m)}]]
     [] q.k = "elem" -> ElemStep(q)
+    [] q.k = "intplan" -> [m \in SpreadingModels |-> {[par |-> a, pressures |-> IntPressures(m, a)] : a \in ParamsG(m)}]
     [] q.k = "geo" -> GeoStep(q)
     [] q.k = "pt" -> PtStep(q)
 
